@@ -105,6 +105,9 @@ func HashRules(c *core.Ctx, p *packages.Package) {
 							if pn, ok := info.Uses[id].(*types.PkgName); ok && nondetPkgs[pn.Imported().Path()] {
 								why = "uses " + pn.Imported().Path() + "." + s.Sel.Name
 							}
+							if pn, ok := info.Uses[id].(*types.PkgName); ok && pn.Imported().Path() == "math" && strings.HasSuffix(s.Sel.Name, "bits") {
+								why = "hashes the bit pattern of a float (math." + s.Sel.Name + "): values equal under == (0.0 and -0.0) get different hashes"
+							}
 						}
 					case *ast.RangeStmt:
 						if tv, ok := info.Types[s.X]; ok {
